@@ -50,11 +50,20 @@ def cases(ctx):
         d += 1
         b0 = PrivateKey(secret_exponent=d).get_public_key().to_bytes()[0]
         if b0 in want: want.discard(b0); pre.append(d)
-    for d in secrets + lz + pre:
+    # secrets whose own first / last bytes look like WIF framing: the version bytes 0x80 / 0xef (also repeated), the Base58 address
+    # version bytes, 0x00, and a trailing 0x01 (the compression marker) or 0x0101
+    framed = []
+    for first in (b'\x80', b'\xef', b'\x80\x80', b'\xef\xef\xef', b'\x00', b'\x00\x00\x80', b'\x6f', b'\xc4', b'\x05', b'\x01'):
+        for last in (b'', b'\x01', b'\x01\x01', b'\x80', b'\xef'):
+            body = G.rbytes(rng, 32 - len(first) - len(last))
+            v = int.from_bytes(first + body + last, 'big')
+            if 1 <= v < N: framed.append(v)
+    ctx.count('secret-framed', len(framed))
+    for d in secrets + lz + pre + framed:
         db = d.to_bytes(32, 'big')
         for net, c in [(rng.choice(NETS), rng.choice([0, 1])) for _ in range(3)]:
             ctx.count('wif-' + net)
-            yield Case(f'wif_enc {np(net)} {hx(db)} {c}', 'ms', nontrivial=net != 'testnet' or d in (1, N - 1), tag='wif',
+            yield Case(f'wif_enc {np(net)} {hx(db)} {c}', 'ms', nontrivial=net != 'testnet' or d in (1, N - 1) or d in framed, tag='wif',
                        spec=lambda ans, net=net, db=db, c=c: (f's:wif_spec {np(net)} {hx(db)} {c}', ans))
         yield Case(f'pub_of {hx(db)}', 'ms', nontrivial=d in lz or d in pre or d < 3 or d > N - 3, tag='pub',
                    spec=lambda ans, db=db: (f'secp_mul {hx(db)}', ans))
